@@ -2,15 +2,20 @@
 C08 - The policy statement applied is the one scoped to the artifact's repository.
 Property theorems only; the model is in `Model/C08.lean`, helper lemmas in `Lemmas/C08.lean`.
 
-Hypotheses. Document validation is property C09. What selection needs from a valid document
-is stated here as explicit decidable hypotheses:
+Validity. Document validation is property C09. What selection needs from a valid document
+are its uniqueness rules, stated here as explicit decidable predicates:
   `scopesUnique d` - no scope string occurs twice in the whole document, and a statement that
                      carries the wildcard "*" carries nothing else (hence at most one does);
   `namesUnique d`  - statement names are pairwise different;
   `oneGlobal d`    - at most one blob statement is global.
-`validateRegistryScopes` / `Validate` enforce exactly these. The correspondence harness emits
-only documents the real `Validate()` accepts, so the hypotheses (`WF`) hold of every generated
-input by construction.
+`WF` is their conjunction per document kind. They are hypotheses of the selection theorems and
+- since a code change in `Validate` can silently break them - they are also OBSERVED: the
+harness generates documents that break exactly one of the rules (all other aspects valid),
+records what the real `Validate()` and `NewVerifierWithOptions` say (`validated`,
+`verifierAccepts`), and the model says both equal `WF`. `model_holds` is for ALL inputs: on a
+`WF` document every selection clause holds, a non-`WF` document is refused and nothing is ever
+selected from it (clause `only_unique_documents_validate`; the selection clauses then read
+"there is no selection result").
 -/
 import NotationModel.Lemmas.C08
 set_option linter.unusedSimpArgs false
@@ -359,7 +364,7 @@ theorem refused_iff_nothing_applies (d : List Stmt) (hu : scopesUnique d = true)
 
 theorem nameOf_selectQ (i : Input) (h : WF i = true) (t : Text) :
     nameOf (selectQ i.stmts (mkQuery i.kind t)) = expected i t := by
-  unfold WF at h
+  unfold WF wfDoc at h
   unfold expected mkQuery
   cases hk : i.kind with
   | oci =>
@@ -369,13 +374,43 @@ theorem nameOf_selectQ (i : Input) (h : WF i = true) (t : Text) :
     simp only [hk, Bool.and_eq_true] at h
     exact nameOf_selectBlob i.stmts h.1 t
 
-/-- **C08, the whole property**: for every input satisfying `WF` (what document validation
-guarantees; the generator only emits such inputs) every clause of `Holds` is true of the
-model's behaviour under the clone facts of the current source tree. -/
-theorem model_holds (i : Input) (h : WF i = true) : Holds i (run i) = true := by
-  unfold Holds clauses run
-  rw [runWith_fresh currentFacts currentFacts_fresh i]
-  simp only [Clauses.holds_cons, Clauses.holds_nil, Bool.and_true, Bool.and_eq_true]
+/-- for a document satisfying the uniqueness rules, reversing the statements changes no selection -/
+theorem reversed_same (i : Input) (h : WF i = true) :
+    (∀ t, nameOf (selectQ i.stmts.reverse (mkQuery i.kind t)) = nameOf (selectQ i.stmts (mkQuery i.kind t))) ∧
+    (i.kind = .blob → nameOf (selectQ i.stmts.reverse .global) = nameOf (selectQ i.stmts .global)) := by
+  unfold WF wfDoc at h
+  have hperm : i.stmts.Perm i.stmts.reverse := (List.reverse_perm i.stmts).symm
+  cases hk : i.kind with
+  | oci =>
+    simp only [hk, Bool.and_eq_true] at h
+    refine ⟨fun t => ?_, fun hb => by cases hb⟩
+    simp only [mkQuery, selectQ]
+    rw [← select_perm i.stmts i.stmts.reverse hperm h.1 t]
+  | blob =>
+    simp only [hk, Bool.and_eq_true] at h
+    refine ⟨fun t => ?_, fun _ => ?_⟩
+    · simp only [mkQuery, selectQ]
+      exact ((blob_perm i.stmts i.stmts.reverse hperm h.1 h.2 t).1).symm
+    · simp only [selectQ]
+      exact ((blob_perm i.stmts i.stmts.reverse hperm h.1 h.2 []).2).symm
+
+/-- a document that breaks a uniqueness rule is refused: nothing is selected from it -/
+theorem non_unique_is_refused (i : Input) (h : WF i = false) : run i = refused := by
+  simp [run, runWith, h]
+
+/-- **C08, the whole property**, for ALL inputs. For a document satisfying the uniqueness rules
+(what `Validate` guarantees) every selection clause is true of the model's behaviour under the
+clone facts of the current source tree; a document that breaks one of them is refused by
+validation and nothing is selected from it. -/
+theorem model_holds (i : Input) : Holds i (run i) = true := by
+  unfold Holds clauses run runWith
+  cases h : WF i with
+  | false =>
+    simp [refused, selectionClauses, Clauses.holds]
+  | true =>
+  simp only [↓reduceIte, Bool.true_or, List.cons_append, List.nil_append, selectionClauses]
+  rw [runValid_fresh currentFacts currentFacts_fresh i]
+  simp only [Clauses.holds_cons, Clauses.holds_nil, Bool.and_true, Bool.and_eq_true, allQ]
   have hsel : ∀ t, (pureT i t).selected = expected i t := by
     intro t
     unfold pureT
@@ -390,15 +425,40 @@ theorem model_holds (i : Input) (h : WF i = true) : Holds i (run i) = true := by
       rw [(pureQ_selected _ _ _ _ _).1]
       have := nameOf_selectQ i h t
       simpa [mkQuery, hk] using this
+  have hrev := reversed_same i h
   have hWF := h
-  unfold WF at hWF
-  refine ⟨?_, ?_, ?_, ?_, ?_, ?_⟩
+  unfold WF wfDoc at hWF
+  refine ⟨trivial, by simp, ?_, ?_, ?_, ?_, ?_, ?_, ?_⟩
   · -- selected = expected
     rw [forall₂_map]
     apply List.all_eq_true.2
     intro t _
     rw [hsel t]
     exact beq_self_eq_true _
+  · -- order independence
+    constructor
+    · apply List.all_eq_true.2
+      intro r hr
+      obtain ⟨t, _, rfl⟩ := List.mem_map.1 hr
+      have h1 := hrev.1 t
+      unfold pureT
+      cases hk : i.kind with
+      | oci =>
+        simp only []
+        rw [(pureQ_selected _ _ _ _ _).1, (pureQ_selected _ _ _ _ _).2.2.1]
+        simp only [hk, mkQuery] at h1
+        rw [h1]; exact beq_self_eq_true _
+      | blob =>
+        simp only []
+        rw [(pureQ_selected _ _ _ _ _).1, (pureQ_selected _ _ _ _ _).2.2.1]
+        simp only [hk, mkQuery] at h1
+        rw [h1]; exact beq_self_eq_true _
+    · cases hk : i.kind with
+      | oci => rfl
+      | blob =>
+        simp only [Option.map_some, Option.getD_some]
+        rw [(pureQ_selected _ _ _ _ _).1, (pureQ_selected _ _ _ _ _).2.2.1, hrev.2 hk]
+        exact beq_self_eq_true _
   · -- refused reference selects nothing
     apply List.all_eq_true.2
     intro r hr
@@ -424,13 +484,13 @@ theorem model_holds (i : Input) (h : WF i = true) : Holds i (run i) = true := by
     | oci =>
       simp only [hk, Bool.and_eq_true] at hWF
       simp only []
-      rw [(pureQ_selected _ _ _ _ _).2.2.1, (pureQ_selected _ _ _ _ _).2.2.2.1, classOf_eq,
+      rw [(pureQ_selected _ _ _ _ _).2.2.2.1, (pureQ_selected _ _ _ _ _).2.2.2.2.1, classOf_eq,
         nameOf_selectOCI i.stmts hWF.1 t]
       simp
     | blob =>
       simp only [hk, Bool.and_eq_true] at hWF
       simp only []
-      rw [(pureQ_selected _ _ _ _ _).2.2.1, classOf_eq]
+      rw [(pureQ_selected _ _ _ _ _).2.2.2.1, classOf_eq]
       by_cases ht : t = []
       · simp only [blobVerifyQuery, ht, ↓reduceIte, selectQ, nameOf_selectGlobal i.stmts hWF.2]
         simp
@@ -442,7 +502,7 @@ theorem model_holds (i : Input) (h : WF i = true) : Holds i (run i) = true := by
     | blob =>
       simp only [hk, Bool.and_eq_true] at hWF
       simp only []
-      rw [(pureQ_selected _ _ _ _ _).1, (pureQ_selected _ _ _ _ _).2.2.1, classOf_eq]
+      rw [(pureQ_selected _ _ _ _ _).1, (pureQ_selected _ _ _ _ _).2.2.2.1, classOf_eq]
       simp only [selectQ, nameOf_selectGlobal i.stmts hWF.2]
       simp
   · -- copies equal the original
@@ -451,22 +511,22 @@ theorem model_holds (i : Input) (h : WF i = true) : Holds i (run i) = true := by
       intro r hr
       obtain ⟨t, _, rfl⟩ := List.mem_map.1 hr
       unfold pureT
-      cases i.kind <;> exact (pureQ_selected _ _ _ _ _).2.2.2.2.1
+      cases i.kind <;> exact (pureQ_selected _ _ _ _ _).2.2.2.2.2.1
     · cases i.kind
       · rfl
       · simp only [Option.map_some, Option.getD_some]
-        exact (pureQ_selected _ _ _ _ _).2.2.2.2.1
+        exact (pureQ_selected _ _ _ _ _).2.2.2.2.2.1
   · -- mutation does not affect later selections
     constructor
     · apply List.all_eq_true.2
       intro r hr
       obtain ⟨t, _, rfl⟩ := List.mem_map.1 hr
       unfold pureT
-      cases i.kind <;> exact (pureQ_selected _ _ _ _ _).2.2.2.2.2
+      cases i.kind <;> exact (pureQ_selected _ _ _ _ _).2.2.2.2.2.2
     · cases i.kind
       · rfl
       · simp only [Option.map_some, Option.getD_some]
-        exact (pureQ_selected _ _ _ _ _).2.2.2.2.2
+        exact (pureQ_selected _ _ _ _ _).2.2.2.2.2.2
 
 /-! ### non-vacuity -/
 
@@ -495,9 +555,34 @@ example : Holds exInput (run exInput) = true := by decide
 
 /-- a wrong observation is rejected: the near miss "r.io/ap" must not select the statement scoped "r.io/app" -/
 example : Holds { exInput with queries := ["r.io/ap@d".toList] }
-    { queries := [{ selected := some "a".toList, refRejected := false, viaVerify := "stmt:a".toList,
-                    viaSkip := "stmt:a".toList, copyEqual := true, intact := true }],
+    { validated := true, verifierAccepts := true,
+      queries := [{ selected := some "a".toList, reversedSelected := some "a".toList, refRejected := false,
+                    viaVerify := "stmt:a".toList, viaSkip := "stmt:a".toList, copyEqual := true, intact := true }],
       globalSel := none } = false := by decide
+
+/-- a document with two wildcard statements breaks the uniqueness rules: the model refuses it,
+and an implementation that validates it and then selects in an order-dependent way is rejected
+(by the validation clause and by every selection clause) -/
+def exTwoWild : Input :=
+  { kind := .oci, stmts := [exStmt "w1" ["*"], exStmt "a" ["r.io/app"], exStmt "w2" ["*"]],
+    queries := ["r.io/other@d".toList] }
+
+example : WF exTwoWild = false := by decide
+example : run exTwoWild = refused := by decide
+example : Holds exTwoWild refused = true := by decide
+example : Holds exTwoWild
+    { validated := true, verifierAccepts := true,
+      queries := [{ selected := some "w2".toList, reversedSelected := some "w1".toList, refRejected := false,
+                    viaVerify := "stmt:w2".toList, viaSkip := "stmt:w2".toList, copyEqual := true, intact := true }],
+      globalSel := none } = false := by decide
+
+/-- the same scope in two statements, the same scope twice in one statement, a duplicate name,
+a wildcard next to another scope, two global blob statements: all outside `WF` -/
+example : WF { exInput with stmts := [exStmt "a" ["r.io/app"], exStmt "b" ["r.io/app"]] } = false := by decide
+example : WF { exInput with stmts := [exStmt "a" ["r.io/app", "r.io/app"]] } = false := by decide
+example : WF { exInput with stmts := [exStmt "a" ["r.io/app"], exStmt "a" ["r.io/app2"]] } = false := by decide
+example : WF { exInput with stmts := [exStmt "a" ["*", "r.io/app"]] } = false := by decide
+
 
 /-- without the wildcard statement the near miss is refused with the no-applicable-policy class -/
 example : (run { exInput with stmts := exDoc.tail, queries := ["r.io/ap@d".toList] }).queries.map (·.viaVerify) =
@@ -526,6 +611,9 @@ example : (run exBlob).queries.map (·.viaVerify) =
     ["stmt:blob-policy2".toList, noPolicy, noPolicy, noPolicy, "stmt:blob-policy".toList] := by decide
 
 example : (run exBlob).globalSel.map (·.selected) = some (some "blob-policy".toList) := by decide
+
+example : WF { exBlob with
+    stmts := [{ exStmt "x" [] with isGlobal := true }, { exStmt "y" [] with isGlobal := true }] } = false := by decide
 
 end examples
 
